@@ -397,6 +397,9 @@ func c06Exec(in []string) []string {
 	if in[0] == "H" {
 		return c06ExecH(in)
 	}
+	if in[0] == "R" {
+		return c06ExecR(in) // route.Consumes of operations with and without payload parameters (c06r.go)
+	}
 	if in[0] != "G" {
 		panic("C06: unknown stream " + in[0])
 	}
@@ -892,6 +895,7 @@ func c06Gen(r *proto.Rng, n int, tier string, emit func(in ...string)) {
 		c06Exhaustive(emit)
 		c06ExhaustiveH(emit)
 	}
+	c06GenR(r, n/40, emit)
 	var cons, reg, oprod []string
 	var dflt, dprod string
 	for i := 0; i < n; i++ {
